@@ -472,6 +472,9 @@ func runLogProp(cfg logRunCfg) func(seed int64, tier string, outDir string) *res
 			if cfg.prop == "C06" || cfg.prop == "C02" || cfg.prop == "C05" {
 				runForgeScenarios(xr, nf, st, xf)
 			}
+			if cfg.prop == "C06" {
+				runBackfillForgeScenarios(xr, nf/2, st, xf)
+			}
 			if cfg.prop == "C04" {
 				runAppendScenarios(xr, na, st, xf)
 				runPartialJoinScenarios(xr, na, st, xf)
